@@ -24,6 +24,7 @@ import CBV.Lemmas.C04Desc
 import CBV.Lemmas.C04Parity
 import CBV.Lemmas.C04Chop
 import CBV.Lemmas.C04Hist
+import CBV.Lemmas.C04Prov
 
 namespace CBV.Prop
 open CBV.C03 (Vals Q Oracle Tol calculate firstCell lastCell TOL absR)
@@ -317,6 +318,44 @@ theorem T_C04_grade_is_runG (g : Geo) (m : Mem) : gradeG g m = runG g := gradeG_
 theorem T_C04_session_geometry_free (g : Geo) (m : Mem) (calls : List GCall) : gsession g m calls = specG g calls :=
   gsession_is_spec calls g m
 
+/-! ### round 6d: wire-level provenance (`Lemmas/C04Prov.lean`) -/
+
+/-- after a successful `Mesh.grade`, for every input, schedule and expansion oracle: the specification of *every* wire is
+    realised on that wire's own geometric edge — built from chop lists evaluated on the wire itself
+    (`WireChopManager.grade`, `propagate_grading`) or taken, as it is or inverted, from a coincident wire
+    (`copy_neighbours`) whose specification is realised in the same sense.  Gradings never travel between different
+    geometric edges. -/
+theorem T_C04_wire_provenance (inp : Inp) (st : St) (h : run inp = .ok st) (w : Nat) :
+    Realised inp w (specOf st w) := run_prov inp st h w
+
+/-- hence every section any wire carries is some chop evaluated on a wire of the same geometric edge (joined to it by a
+    chain of coincidences), read from the other end some number of times: count and length ratio are that chop's, the
+    expansion is exactly the one the oracle / calculator yields on that edge, or (odd number of reversals) its reciprocal -/
+theorem T_C04_wire_sections (inp : Inp) (st : St) (h : run inp = .ok st) (w : Nat) :
+    ∀ d ∈ specOf st w, ∃ (c : Chop) (w0 : Nat) (k : Nat), SameEdge inp w w0 ∧ d = flipN k (secOn inp w0 c) :=
+  realised_sections (run_prov inp st h w)
+
+/-- the expansion a chop yields does not depend on the wire (what `T_C04_c2c_same_on_all_wires` shows for chops that
+    preserve the cell-to-cell ratio) -/
+def Uniform (inp : Inp) : Prop := ∀ id inv w w', inp.ev id inv w = inp.ev id inv w'
+
+/-- Exact (tolerance-free) statement for the exactly computed kinds, partial.
+    Full statement wanted: on an edge shared by several blocks the first / last cell sizes, oriented, are *equal* in all
+    of them.  Proved part: when expansions do not depend on the wire, every section of every wire — own or copied
+    through any chain of coincident wires — is exactly what some chop yields on this very wire, read from one end or
+    the other; no rounding, no `Grading.__eq__` tolerance enters by copying.  Missing: (i) that the chop is one the
+    *other* block of the shared edge holds (the provenance predicate does not record which manager's list was evaluated;
+    two user-chopped blocks on one edge evaluate their own chops and are compared by `check_consistency` to its tolerance
+    only — there exact equality is false in general), (ii) `Uniform` for the composed model needs every evaluation to
+    succeed (positive lengths), which is not proved. -/
+theorem T_C04_shared_exact_partial (inp : Inp) (hu : Uniform inp) (st : St) (h : run inp = .ok st) (w : Nat) :
+    ∀ d ∈ specOf st w, ∃ (c : Chop) (k : Nat), d = flipN k (secOn inp w c) := by
+  intro d hd
+  obtain ⟨c, w0, k, _, rfl⟩ := T_C04_wire_sections inp st h w d hd
+  refine ⟨c, k, ?_⟩
+  unfold secOn
+  rw [hu c.id c.inv w0 w]
+
 end CBV.Prop
 
 namespace CBV.Prop.Examples
@@ -408,4 +447,14 @@ example : (gsession twoBoxesS (freshMem (toInp twoBoxesS))
     = [some [5, 4, 3, 2, 4, 3], some [9, 4, 3, 2, 4, 3], none] := by
   rw [T_C04_session_geometry_free]
   decide +kernel
+/-! round 6d -/
+
+/-- non-vacuity of `T_C04_shared_exact_partial`: the two boxes (run succeeds, see above) have a wire-independent expansion … -/
+example : Uniform (twoBoxes 5 0) := fun _ _ _ _ => rfl
+
+/-- … and `T_C04_wire_provenance` on them: wire 16 of block 1 (shared with wire 5 of block 0) holds what block 0's y chop
+    yields, one section of 5 cells -/
+example : (match run (twoBoxes 5 0) with | .ok st => (specOf st 16).map (·.count) | .error _ => []) = [5] := by
+  decide +kernel
+
 end CBV.Prop.Examples
